@@ -464,6 +464,8 @@ type FuncContract struct {
 	Ghosts   []*GhostStmt
 	Params   []QVar // for library specs: parameter names
 	Nonblock bool
+	NonblockTags []string
+	BlocksWhy string // library/interface operation declared blocking
 	Safety   bool
 	SafetyTags []string
 	Uses     []string // lemmas assumed in the function's VC
@@ -548,7 +550,7 @@ type SpecFile struct {
 
 var clauseKinds = map[string]bool{
 	"requires": true, "ensures": true, "modifies": true, "invariant": true, "decreases": true,
-	"inline": true, "trusted": true, "nonblocking": true, "acquires": true, "releases": true, "uses": true,
+	"inline": true, "trusted": true, "nonblocking": true, "blocks": true, "acquires": true, "releases": true, "uses": true,
 	"ghost": true, "assert": true, "assume": true, "params": true, "havocs": true, "reads": true, "check": true, "safety": true,
 }
 
@@ -917,6 +919,14 @@ func ParseSpecFile(path, pkg string) (*SpecFile, error) {
 				continue
 			case "nonblocking":
 				curF.Nonblock = true
+				curF.NonblockTags = tags
+				continue
+			case "blocks":
+				// blocks <why>: the (library / interface) operation may block for as long as a peer wants
+				curF.BlocksWhy = strings.TrimSpace(it.rest)
+				if curF.BlocksWhy == "" {
+					curF.BlocksWhy = "blocking operation"
+				}
 				continue
 			case "params":
 				ps, err := parseParams(it.rest)
